@@ -23,6 +23,7 @@ META = {
         "chain contains X that is handed over later reaches the backend, and no step/check/submitter function is entered "
         "under X. Non-trivial = a survivor attempted >=1 durable operation after the completion (an OrphanedChild rejection "
         "or a later hand-over was observed); distinct = (program shape, decision-trace hash)."
+        " Plus LinePreempt sweeps (one long preemption per executed line of state.py/executor.py) over four fixed early-completing parallels whose survivor is about to hand over its next record."
     ),
     "assumptions": ["'handed its completion record' = the call of ExecutionState.create_checkpoint with the CONTEXT SUCCEED/FAIL update"],
     "budget": {
